@@ -26,6 +26,7 @@ def adversarial_rows(arch):
         dict(cfa=("r", R["sp"], -16), fp=("s",), ra=("o", 8)),
         dict(cfa=("r", R["sp"], 8 if arch == "x86" else 16), fp=("o", -8 if arch == "x86" else -16), ra=("vo", 0)),
         dict(cfa=("r", R["sp"], 0), fp=("s",), ra=("o", 8)),                              # zero-size frame, other slot
+        dict(cfa=("r", R["sp"], 0), fp=("s",), ra=("o", -8)),                             # zero-size frame as a compressed rule (x86_64: the word below rsp)
     ]
     return rows
 
@@ -80,6 +81,18 @@ def generate(rng, tier):
                 s.add("newcache F")
                 ln = s.add("trace U F %s %s W%d %d" % (hx(pc0), regs, mi, 40), tag="%s:pingpong" % arch)
                 s.meta[ln] = {"budget": 36, "arch": arch}
+            # a first frame that names itself: a zero-size frame whose return-address slot holds the pc (x86_64: the
+            # word below rsp; aarch64: lr = pc with an unmoved sp) - the very first step may not repeat its state either
+            iz = [i for i, r in enumerate(rows) if r["cfa"] == ("r", ARCH_REGS[arch]["sp"], 0) and r["ra"] == ("o", -8)][0]
+            izs = [i for i, r in enumerate(rows) if r["cfa"] == ("r", ARCH_REGS[arch]["sp"], 0) and r["ra"] == ("s",)][0]
+            for (i0, tagz) in ((iz, "selfslot"), (izs, "selflr")):
+                pcz = 0x11000 + 0x100 * i0 + 0x15
+                dz = dict(pairs); dz[pp + 64 - 8] = pcz
+                s.mem("Z%d%s" % (mi, tagz), sorted(dz.items()))
+                regs = s.regs_x86(pcz, pp + 64, 0) if arch == "x86" else s.regs_a64(M64, pcz, pp + 64, 0)
+                s.add("newcache F")
+                ln = s.add("trace U F %s %s Z%d%s %d" % (hx(pcz), regs, mi, tagz, 8), tag="%s:%s" % (arch, tagz))
+                s.meta[ln] = {"budget": 8, "arch": arch}
             for st in range(6):
                 pc = rng.choice(code) - 1
                 sp = base + 8 * rng.below(nw)
@@ -197,6 +210,9 @@ def judge(script, impl):
         if last.startswith("panic") or last.startswith("hang"):
             continue           # C09 / C14
         # caller-frame steps: from states[1] on (states[0] is the first frame)
+        # (the step out of the FIRST frame is outside the statement - "across the caller frames" - and aarch64 does let a
+        # first frame whose lr equals its pc repeat address and sp once; the x86_64 rules refuse that too, which the
+        # correspondence holds them to: streams selfslot / selflr)
         for i in range(2, len(states)):
             a0, s0, f0 = states[i - 1]; a1, s1, f1 = states[i]
             if s1 < s0:
